@@ -15,4 +15,14 @@ PROPS = {
                         "equality of reader output is modulo leading blanks of blank/comment-only lines (canonLine)",
                         "C10_partial excludes payload lines that themselves parse as pint control comments (known finding C10-ctl-in-payload); C10_not_full proves the full statement false on the model"],
     },
+    "C05": {
+        "needs_binary": True,
+        "n": {"quick": 40, "thorough": 1500},
+        "level_text": "Lean proof that the modelled lint/ci decision fails iff some reported problem reaches the threshold, for every report stream, threshold, --min-severity and --show-duplicates value, over comparison operators, severity order and flag parse table REGENERATED from the source on every run (a changed operator or reordered constant breaks the theorem); the real binary's exit status is compared with its own --json report over the whole --fail-on table",
+        "technique": "Lean 4 proof over regenerated severity/threshold facts + binary-level differential check",
+        "rule": "n random strict rule files x random config assigning custom severities x every --fail-on spelling (default, info, warning, bug, fatal) x random --min-severity/--show-duplicates through the real pint binary (lint), plus `pint ci` in a scratch git repository for every 4th input; non-trivial = the run reported at least one problem; distinct = distinct (command, config, file, flags)",
+        "trusted_base": COMMON_TB + ["the JSON reporter prints every report's severity faithfully (theorem string_roundtrip covers the spelling table)", "urfave/cli flag parsing, process exit code = 1 iff the action returned an error (cmd/pint/main.go)"],
+        "assumptions": ["a report is abstracted to (severity, key) where key stands for all other fields compared by Report.isEqual",
+                        "the run 'completes linting': runs that stop on configuration or discovery errors are not covered by the statement"],
+    },
 }
